@@ -65,6 +65,51 @@ def check_callback_failure_closes(ctx: Ctx, oid: str) -> None:
         ob.require(nfail >= 1, "_local_receive: callback invocation not found")
 
 
+def check_weak_lookup_guarded(ctx: Ctx, oid: str) -> None:
+    """`self._channels.get(id)` is a weak lookup: the channel object may be gone.  In the factory's receiver-side methods every use
+    of the looked-up object (attribute, method call) is reached only with the object established non-None -- an AttributeError
+    there escapes into the receiver thread and takes the whole connection down (shared: C07.k, C02.p)"""
+    repo = ctx.repo
+    from ..terms import NONE as _N, evaluator as _ev, implies as _imp, subterms as _sub, tv as _tv
+    with ctx.obligation(oid, "weak-lookup-guarded") as ob:
+        nuse = 0
+        for mname, m0 in sorted(repo.cls("ChannelFactory").methods.items()):
+            m = repo.func(m0.qualname)
+            is_cb = lambda c: False  # noqa: E731
+            try:
+                orc = Oracle(repo, m, precise=True, call_raises=lambda c, f: [("Exception", True)] if isinstance(c.func, ast.Name) and c.func.id == "callback" else None)
+                paths = list(_ev(repo, m, orc).run(limit=20000))
+            except AnalysisError:
+                continue
+            flagged = set()
+            for (pth, st) in paths:
+                looks = {e.result for e in st.events if e.kind == "call" and e.attr == "get" and e.recv is not None and e.recv[0] == "sym" and e.recv[1].endswith("._channels")
+                         and e.result is not None}
+                if not looks:
+                    continue
+                for e in st.events:
+                    terms = [t for t in ([e.recv] + list(e.args or ()) + [e.value]) if isinstance(t, tuple)]
+                    used = {x[1] for t in terms for x in _sub(t) if isinstance(x, tuple) and len(x) == 3 and x[0] == "attr" and x[1] in looks}
+                    if e.kind == "call" and e.recv in looks and e.attr is not None and e.attr != "get":
+                        used.add(e.recv)
+                    for ch in used:
+                        nuse += 1
+                        cond = st.cond[:e.ncond]
+                        ok = _tv(("cmp", "is", ch, _N), dict(cond)) is False
+                        if not ok:
+                            try:
+                                ok = _imp(cond, ("not", ("cmp", "is", ch, _N))) is True
+                            except Exception:
+                                ok = False
+                        if not ok and id(e.node) not in flagged:
+                            flagged.add(id(e.node))
+                            ob.violation(m, e.node, f"{m.short} uses the weakly looked-up channel object (`{str(e)[:60]}`) without having established that it still exists: for a "
+                                                    "dropped channel this raises AttributeError in the receiver thread and every channel of the gateway dies with it",
+                                         construct=f"{m.short}: unguarded use of _channels.get()")
+            ob.site(m, m.node, f"{m.short}: uses of the looked-up channel are guarded", ok=not flagged)
+        ob.require(nuse >= 3, f"{nuse} uses of weakly looked-up channels in ChannelFactory (floor 3)")
+
+
 def check(ctx: Ctx) -> None:
     repo = ctx.repo
     ctx.decides = ("only RemoteError objects can reach Channel._remoteerrors / .warn(); a failing callback closes both sides with the error; "
@@ -332,3 +377,4 @@ def check(ctx: Ctx) -> None:
     from .C03 import check_endmarker_requeue
     check_endmarker_requeue(ctx, "C07.i")
     check_callback_failure_closes(ctx, "C07.j")
+    check_weak_lookup_guarded(ctx, "C07.k")
